@@ -14,7 +14,7 @@ func init() {
 	register(&mon.Prop{
 		ID:    "C05",
 		Level: "exploration",
-		Rule: "seeded scenarios generated conforming by construction (and confirmed by the reference predicate): n in 1..8 links, any principal assignment incl. self-delegation / repeated principals / subject = invoker, all key algorithms for issuers, attenuating command sequences (equal allowed), satisfiable policy sets of every statement kind (statements confirmed true by the reference evaluator), comfortable (>=1h away) or absent time windows, and every setting of the authorization-irrelevant fields: audience (unset / subject / invoker / third party / chain principal), plain and encrypted metadata, nonce length 12..64, cause, iat past/future/absent, invocation expiry; map loader or seal -> container (4 formats) -> reader. " +
+		Rule: "seeded scenarios generated conforming by construction (and confirmed by the reference predicate): n in 1..8 links, any principal assignment incl. self-delegation / repeated principals / subject = invoker, all key algorithms for issuers, attenuating command sequences (equal allowed), satisfiable policy sets of every statement kind (statements confirmed true by the reference evaluator), comfortable (>=1h away) or absent time windows and bounds more than 292 years away (year 2330 .. 2^53-1 s expirations expirations on links and invocation: beyond the range of time.Duration / UnixNano differences), and every setting of the authorization-irrelevant fields: audience (unset / subject / invoker / third party / chain principal), plain and encrypted metadata, nonce length 12..64, cause, iat past/future/absent, invocation expiry; map loader or seal -> container (4 formats) -> reader. " +
 			"Oracle: ExecutionAllowed (and the args-hook variant) returns nil. non-trivial = n>=2 or a policy or an irrelevant field set; distinct = (n, principal pattern, command tuple, statement kinds, audience choice, irrelevant-field vector, key algorithms).",
 		Assumptions: []string{
 			"reference predicate chain.Conforming confirms every generated scenario before it is judged",
@@ -25,7 +25,7 @@ func init() {
 		MinEvals:    floor(3900, 110000),
 		MinDistinct: floor(2500, 60000),
 		RequiredCells: func(string) []string {
-			cells := []string{"scale", "scale/long-chain", "scale/deep-command", "scale/many-statements", "scale/principal-thrice", "hook", "meta-plain", "meta-enc", "nonce-long", "cause", "iat=1", "iat=2", "iat=3", "inv-exp", "self-delegation", "subject=invoker", "equal-commands", "top-root", "policy/ipld", "policy/constructors", "no-policy"}
+			cells := []string{"far-bounds/inv-exp", "far-bounds/exp>292y", "scale", "scale/long-chain", "scale/deep-command", "scale/many-statements", "scale/principal-thrice", "hook", "meta-plain", "meta-enc", "nonce-long", "cause", "iat=1", "iat=2", "iat=3", "inv-exp", "self-delegation", "subject=invoker", "equal-commands", "top-root", "policy/ipld", "policy/constructors", "no-policy"}
 			for _, a := range []string{"unset", "subject", "invoker", "third", "chain"} {
 				cells = append(cells, "audience="+a)
 			}
@@ -111,6 +111,17 @@ func runC05(w *mon.W) {
 		}
 		if s.InvExp != nil {
 			w.Cover("inv-exp")
+		}
+		if s.InvExpAbs != nil {
+			w.Cover("far-bounds/inv-exp")
+		}
+		for _, l := range s.Links {
+			if l.ExpAbs != nil {
+				w.Cover("far-bounds/exp>292y")
+			}
+			if l.NbfAbs != nil {
+				w.Cover("far-bounds/nbf<-292y")
+			}
 		}
 		if s.Invoker == s.Subject {
 			w.Cover("subject=invoker")
